@@ -203,13 +203,16 @@ static void upipe_vanc_decoder_input(struct upipe *upipe,
             data[S291_HEADER_SIZE+i] = ubits_get(&s, 10);
         }
 
-        while (s.available) {
-            if (!ubits_get(&s, 1)) {
-                upipe_dbg(upipe, "Invalid byte align, skipping");
-                uref_pic_plane_unmap(pic, "x10", 0, 0, -1, -1);
-                uref_free(pic);
-                continue;
-            }
+        bool aligned = true;
+        while (s.available)
+            if (!ubits_get(&s, 1))
+                aligned = false;
+
+        if (!aligned) {
+            upipe_dbg(upipe, "Invalid byte align, skipping");
+            uref_pic_plane_unmap(pic, "x10", 0, 0, -1, -1);
+            uref_free(pic);
+            continue;
         }
 
         if (!s291_check_cs(data)) {
